@@ -14,7 +14,6 @@ import (
 	"github.com/libp2p/go-libp2p/core/peer"
 
 	datatransfer "github.com/filecoin-project/go-data-transfer/v2"
-	"github.com/filecoin-project/go-data-transfer/v2/channels"
 	dtimpl "github.com/filecoin-project/go-data-transfer/v2/impl"
 	"github.com/filecoin-project/go-data-transfer/v2/message"
 	"github.com/filecoin-project/go-data-transfer/v2/network"
@@ -191,7 +190,7 @@ func (r *mgrRig) settle(chid datatransfer.ChannelID) (datatransfer.ChannelState,
 		if err != nil {
 			return nil, false
 		}
-		if !channels.IsChannelCleaningUp(st.Status()) {
+		if !isCleanup(st.Status()) {
 			return st, true
 		}
 		if time.Now().After(deadline) {
@@ -211,7 +210,7 @@ func (r *mgrRig) settleTerminal(chid datatransfer.ChannelID) (datatransfer.Chann
 		if err != nil {
 			return nil, false
 		}
-		if channels.IsChannelTerminated(st.Status()) {
+		if isTerminal(st.Status()) {
 			return st, true
 		}
 		if time.Now().After(deadline) {
